@@ -211,6 +211,7 @@ def apply_history(tw, hist):
     mc = tw.A
     model = [("ctx", {"app_id": 66})]
     opened = []
+    created = []
     problems = []
     for op in hist:
         kind = op[0]
@@ -220,7 +221,9 @@ def apply_history(tw, hist):
                 ctx = mc(**FRAMES[op[1]])
                 ctx.__enter__()
                 opened.append(ctx)
-                model.append(("ctx", dict(FRAMES[op[1]])))
+                frame = dict(FRAMES[op[1]])
+                created.append((ctx, frame))
+                model.append(("ctx", frame))
             elif kind == "app":
                 ctx = mc.application(op[1])
                 ctx.__enter__()
@@ -229,11 +232,20 @@ def apply_history(tw, hist):
             elif kind == "update":
                 mc.update_current_context(**UPDATES[op[1]])
                 model[-1][1].update(UPDATES[op[1]])
+            elif kind == "repush":
+                # enter again the context object created by the op[1]-th
+                # earlier push of this history (it may still be open)
+                if op[1] >= len(created):
+                    continue
+                ctx, frame = created[op[1]]
+                ctx.__enter__()
+                opened.append(ctx)
+                model.append(("ctx", frame))
         except Exception as e:
             problems.append(("history_exception", "%r raised %s: %s"
                              % (op, type(e).__name__, e)))
             return model, problems, opened
-        if kind in ("push", "app", "update"):
+        if kind in ("push", "app", "update", "repush"):
             pass
         elif kind in ("pop", "pop_exc"):
             if not opened:
@@ -428,7 +440,10 @@ def shards(tier):
             out.append(dict(part="battery", x=x, y=y))
     out += [dict(part="direct"), dict(part="connections", root=[0, 0]),
             dict(part="connections", root=[4, 0]),
-            dict(part="connections", root=[1, 5]), dict(part="bmp")]
+            dict(part="connections", root=[1, 5]),
+            dict(part="connections", root=[0, 0], size=[24, 12]),
+            dict(part="connections", root=[4, 8], size=[12, 24]),
+            dict(part="bmp")]
     return out
 
 
@@ -440,6 +455,8 @@ def successors(hist, depth_left):
         [("update", i) for i in range(len(UPDATES))]
     if n_open > 0:
         ops += [("pop",), ("pop_exc",)]
+    n_created = sum(1 for o in hist if o[0] == "push")
+    ops += [("repush", j) for j in range(min(n_created, 2))]
     return ops
 
 
@@ -468,7 +485,12 @@ def part_bfs(params, tier, acc):
                                        method=None, form=None),
                                   msg + "\n  history %r" % (hist,),
                                   size=len(hist))
-                key = repr(model)
+                # the state also records which open frames are one and the
+                # same context object (re-entered contexts)
+                ident = []
+                for c in opened:
+                    ident.append([id(o) for o in opened].index(id(c)))
+                key = repr(model) + repr(ident)
                 new = key not in seen
                 if new:
                     seen.add(key)
@@ -490,8 +512,13 @@ def part_bfs(params, tier, acc):
                         opened.pop().__exit__(None, None, None)
                     except Exception:
                         pass
-            if new and level < depth:
-                for op in successors(hist, depth - level):
+            # a history that re-enters a context object may go one step
+            # further (so that the re-entered block can be left again)
+            lim = depth + (1 if any(o[0] == "repush" for o in hist) else 0)
+            if new and level < lim:
+                for op in successors(hist, lim - level):
+                    if level >= depth and op[0] not in ("pop", "pop_exc"):
+                        continue
                     nxt.append(hist + [op])
             elif not new and level < depth and hist[-1][0] in ("pop",
                                                                "pop_exc"):
@@ -604,12 +631,14 @@ def part_connections(params, tier, acc):
     from rig.machine_control import scp_connection as sc
     from rig.machine_control import machine_controller as mcm
     rx, ry = params["root"]
-    W = H = 12
+    W, H = params.get("size", [12, 12])
     sim = SimMachine(repo(), W, H)
     sim.full_sync_chips = {(rx, ry)}
     sim.root = (rx, ry)
     eths = {}
-    for i, (ox, oy) in enumerate(((0, 0), (4, 8), (8, 4))):
+    offs = [(ox + 12 * i, oy + 12 * j) for i in range(W // 12)
+            for j in range(H // 12) for ox, oy in ((0, 0), (4, 8), (8, 4))]
+    for i, (ox, oy) in enumerate(offs):
         e = ((rx + ox) % W, (ry + oy) % H)
         c = sim.chips[e]
         c.eth_up = True
@@ -655,7 +684,7 @@ def part_connections(params, tier, acc):
                         acc.violation(
                             dict(kind="connection"),
                             dict(part="connections", root=[rx, ry],
-                                 chip=[x, y], which=which),
+                                 size=[W, H], chip=[x, y], which=which),
                             "command for chip (%d,%d) (board of %r) left on "
                             "connection(s) %r, expected %r (root %r, %s)"
                             % (x, y, e, sorted(hosts), want, (rx, ry),
@@ -776,7 +805,8 @@ def replay(case, acc):
     if case.get("part") == "direct":
         part_direct({}, "quick", acc)
     elif case.get("part") == "connections":
-        part_connections(dict(root=case["root"]), "quick", acc)
+        part_connections(dict(root=case["root"],
+                              size=case.get("size", [12, 12])), "quick", acc)
     elif case.get("part") == "bmp":
         part_bmp({}, "quick", acc)
     else:
